@@ -355,7 +355,11 @@ CLAIMS["C12"] = dict(
           " All of these are read off values of a symbolic interpretation (rules/C12_sym.py, an extension of optilint.tensoreval: undecided comparisons "
           "become symbolic conditions in negation normal form, where / if_then_else / lax.cond become select atoms so that swapped branches with a negated "
           "test coincide, sign / abs / min / max / exp / log / pow / norms are opaque function atoms, argsort / sort / take give symbolic permutation and "
-          "gather objects; the eigen solver is interpreted without hypothesis, in the general and in the spherical branch, rules/C12_eigen.py), not off "
+          "gather objects; the eigen solver is interpreted without hypothesis, in the general and in the spherical branch, rules/C12_eigen.py; custom_jvp "
+          "registrations are read as values and the tangent helper is found dynamically -- the function on the interpreter's stack at the eigen "
+          "decomposition whose arguments carry one callable of one scalar and one of two, roles read by value through tuples / NamedTuples / dicts / "
+          "partial, rules/C12_jvp.py; each rule's relative difference is compared with its own scalar function, exactly for sqrt and by "
+          "sample-point refutation for exp / log / pow), not off "
           "statement shapes: renames, helper extraction, keyword arguments, hoisted predicates, De Morgan and def/lambda changes do not matter; sign "
           "conventions are fixed at sample points on top of exact squared identities; an idiom that is not modelled gives UNDECIDED."),
     design_ref="DESIGN.md section 4, C12 and section 11.8",
